@@ -366,6 +366,38 @@ def main():
             if len(samples) < 4 and fi > 100 and got:
                 samples.append(case)
 
+    # 2b. histories: the status after a process has been removed / added equals the status of an application built from
+    #     scratch with the resulting processes (differential oracle, no expected value written by hand)
+    hist_formulas = [None, '"p1"', 'any("p.")', 'all("p.") or "q1"', '"q1" and not "p2"']
+    hvals = [{'state': s, 'expected': e, 'forced': f, 'required': r, 'seq': q}
+             for s, e, f in [(RUNNING, True, None), (STOPPED, True, None), (EXITED, False, None), (FATAL, False, None),
+                             (RUNNING, True, STOPPED)]
+             for r, q in ((False, 1), (True, 1), (False, 0))]
+    for f in hist_formulas:
+        for combo in itertools.product(hvals, repeat=3):
+            procs = dict(zip(names_for(3), combo))
+            for gone in names_for(3):
+                evaluations += 1
+                case = {'kind': 'removal', 'formula': f, 'procs': procs, 'removed': gone}
+                try:
+                    app = make_app(procs, True, formula=f)
+                    app.update()
+                    app.remove_process(gone)
+                    got = (app.state.name, app.major_failure, app.minor_failure)
+                    rest = {k_: v_ for k_, v_ in procs.items() if k_ != gone}
+                    fresh = make_app(rest, True, formula=f)
+                    fresh.update()
+                    want = (fresh.state.name, fresh.major_failure, fresh.minor_failure)
+                except Exception as exc:
+                    report({'clause': 'exception', 'signature': f'C15:exception:{type(exc).__name__}:removal',
+                            'exc': repr(exc)[:200]}, case)
+                    continue
+                distinct.add(('removal', f, got))
+                if got != want:
+                    what = [n for n, a_, b_ in zip(('state', 'major', 'minor'), got, want) if a_ != b_]
+                    report({'clause': 'status-after-removal-differs-from-fresh-application',
+                            'signature': 'C15:after-removal:' + '+'.join(what), 'got': got, 'want': want}, case)
+
     # 3. hostile formulas: totality and absence of side effects
     procs = vectors[0]
     for f in HOSTILE:
